@@ -523,8 +523,26 @@ def main():
     results = []
     par_units = max(1, min(len(units), jobs))
     inner = max(1, jobs // par_units)
+    # memory-aware admission: the estimated peak memory (unit option est_gb, default 3) of the units running at the same time stays
+    # below VERIF_MEM_BUDGET_GB (default 44); a unit larger than the budget runs alone
+    budget = float(os.environ.get('VERIF_MEM_BUDGET_GB', '44'))
+    import threading
+    cond = threading.Condition(); in_use = [0.0]
+    def admitted(u, keep, inner):
+        need = min(float(u.get('est_gb', 3)), budget)
+        with cond:
+            while in_use[0] + need > budget and in_use[0] > 0:
+                cond.wait()
+            in_use[0] += need
+        try:
+            return run_unit(u, keep, inner)
+        finally:
+            with cond:
+                in_use[0] -= need
+                cond.notify_all()
+    units = sorted(units, key=lambda u: -float(u.get('est_gb', 3)))     # big ones first
     with ThreadPoolExecutor(max_workers=par_units) as ex:
-        futs = {ex.submit(run_unit, u, keep, inner): u for u in units}
+        futs = {ex.submit(admitted, u, keep, inner): u for u in units}
         for f in as_completed(futs):
             results.append((futs[f], f.result()))
     results.sort(key=lambda t: t[1]['unit'])
